@@ -22,7 +22,7 @@ def member_lines(m, wd, tag):
             "dump 0 out full", "free 0"]
 
 
-def run_groups(V, groups, wd, per_batch=8, variant="rel", timeout=300, workers=12, env=None):
+def run_groups(V, groups, wd, per_batch=8, variant="rel", timeout=300, workers=12, env=None, pipeline=False):
     """groups: list of dict(gid, rel, prop, members=[...], [key], [nontrivial]); fills Verdict V"""
     batches = [groups[i:i + per_batch] for i in range(0, len(groups), per_batch)]
 
@@ -37,6 +37,7 @@ def run_groups(V, groups, wd, per_batch=8, variant="rel", timeout=300, workers=1
         tp, rc, err = kv.run_kvdrive("\n".join(lines) + "\n", bwd, "t", variant=variant, timeout=timeout, env=env)
         try:
             res = kv.run_tlc("RelateTrace", "RelateTrace.cfg", bwd, trace=tp, timeout=900, heap="3g")
+            res.pipeline = kv.run_tlc("KalignTrace", "KalignTrace.cfg", bwd, trace=tp, timeout=900, heap="3g", name="pipe") if pipeline else None
         except kv.Broken as e:
             return bi, rc, err, None, str(e)
         return bi, rc, err, res, None
@@ -47,6 +48,11 @@ def run_groups(V, groups, wd, per_batch=8, variant="rel", timeout=300, workers=1
         if broken:
             raise kv.Broken(broken)
         V.add_tlc(res)
+        if getattr(res, "pipeline", None) is not None:
+            V.add_tlc(res.pipeline)
+            V.extra["pipeline_events_validated"] = V.extra.get("pipeline_events_validated", 0) + res.pipeline.distinct
+            for (ln, sid, items) in res.pipeline.divs:
+                V.divergence("pipeline model, batch %d line %d: %s" % (bi, ln, ",".join(sorted(items))))
         failed_g = set()
         for (ln, gid, items) in res.fails:
             failed_g.add(gid)
